@@ -22,6 +22,11 @@ func (e Entry[M, K, V]) Val() (V, bool) {
 	return v, ok
 }
 
+// MapZero returns the zero key and value of m's type: the instrumenter declares the
+// iteration variables of a rewritten map range with it, once and outside the loop, in
+// modules whose go.mod predates per-iteration loop variables (go < 1.22).
+func MapZero[M ~map[K]V, K comparable, V any](m M) (k K, v V) { return }
+
 // MapRange returns the entries of m in the order the run's map-order stream
 // dictates. Without a simulation the order is Go's own.
 func MapRange[M ~map[K]V, K comparable, V any](site string, m M) []Entry[M, K, V] {
